@@ -131,6 +131,27 @@ func vc12Gen(seeds []c12h.Seed, rng *vh.Rng, thorough bool) []c12h.Input {
 			}
 		}
 	}
+	// hand-made tiny records: a length prefix that AGREES with the size, declaring 0..24 payload bytes (fewer than, exactly
+	// and more than the 9 bytes of the previous-record pointer), plain and as a padded two-byte uvarint, at offset 0 and
+	// behind other bytes
+	for n := 0; n <= 24; n++ {
+		for _, padded := range []bool{false, true} {
+			for _, lead := range []int{0, 5} {
+				var rec []byte
+				if padded {
+					rec = append(rec, 0x80|byte(n), 0x00)
+				} else {
+					rec = append(rec, byte(n))
+				}
+				rec = append(rec, rng.Bytes(n)...)
+				data := append(append([]byte(nil), rng.Bytes(lead)...), rec...)
+				data = append(data, rng.Bytes(3)...) // bytes behind the record
+				off, size := uint64(lead), uint64(len(rec))
+				ins = append(ins, c12h.Input{Entry: "record-bytes", Label: "tiny-record", Data: data, Aux: []uint64{off, size}})
+				ins = append(ins, c12h.Input{Entry: "read-bytes", Label: "tiny-record", Data: data, Aux: []uint64{off}})
+			}
+		}
+	}
 	return ins
 }
 
